@@ -1036,7 +1036,6 @@ int32_t tls13WriteCookie(ssl_t *ssl,
     psTracePrintExtensionCreate(ssl, EXT_COOKIE);
 
     psDynBufAppendOctets(extBuf, extensionType, 2);
-    psDynBufInit(ssl->hsPool, &cookieBuf, 48);
 
     if (MATRIX_IS_SERVER(ssl))
     {
@@ -1065,6 +1064,7 @@ int32_t tls13WriteCookie(ssl_t *ssl,
     */
 
     /*   opaque cookie<1..2^16-1>;; */
+    psDynBufInit(ssl->hsPool, &cookieBuf, 48);
     psDynBufAppendTlsVector(&cookieBuf,
             1, (1 << 16) - 1,
             cookie,
@@ -1074,6 +1074,7 @@ int32_t tls13WriteCookie(ssl_t *ssl,
     extensionData = psDynBufDetachPsSize(&cookieBuf, &extensionDataLen);
     if (extensionData == NULL)
     {
+        psDynBufUninit(&cookieBuf);
         return PS_MEM_FAIL;
     }
     psDynBufAppendTlsVector(extBuf,
